@@ -496,7 +496,8 @@ def to_obs(m, s, mdl, raw, idx):
             obs['views']['writer_bytes'] = [det_int(m, s, mdl, b) if not isinstance(b, int) else b for b in val[0].bytes()]
             if disc_int(val[1]) != 0: obs['views']['writer_err'] = True
         elif w == 'writerfail':
-            obs.setdefault('views', {})['writerfail'] = {'written': det_text(m, s, mdl, val[0]), 'err': disc_int(val[1]) != 0, 'k': det_int(m, s, mdl, val[2])}
+            obs.setdefault('views', {})['writerfail'] = {'written': det_text(m, s, mdl, val[0]), 'err': disc_int(val[1]) != 0, 'k': det_int(m, s, mdl, val[2]),
+                                                         'written_bytes': [det_int(m, s, mdl, b) if not isinstance(b, int) else b for b in val[0].bytes()]}
         elif w.startswith('map'):
             obs['maps']['c' + w[3]] = source_map_of(m, s, mdl, val, idx)
         else:
